@@ -41,3 +41,210 @@ WITNESSES = [
     dict(id="c18-ok-eq-chain", prop="C18", file=F, expect=None,
          old="            elif name in (tensor_names.coulomb, tensor_names.sym_orb_denom):", new="            elif name == tensor_names.coulomb or name == tensor_names.sym_orb_denom:"),
 ]
+
+# ---------------------------------------------------------------------------------------------------------------------
+# behaviour-preserving refactorings of kinds that are not in refactors/ (the checks must stay silent)
+WITNESSES += [
+    # table lookup instead of a conditional expression
+    dict(id="c18-ok-spin-table", prop="C18", file=I, expect=None,
+         old='            spin = "alpha" if spin == "a" else "beta"', new='            spin = {"a": "alpha", "b": "beta"}[spin]'),
+    # str.format + the upper/lower properties instead of %-formatting of self.args[k]
+    dict(id="c18-ok-format-properties", prop="C18", file=S, expect=None,
+         old='        return "{%s^{%s}_{%s}}" % (\n            self.symbol,\n            "".join([i._latex(printer) for i in self.args[1]]),\n            "".join([i._latex(printer) for i in self.args[2]])\n        )',
+         new='        upper = "".join(map(lambda s: s._latex(printer), self.upper))\n        lower = "".join(map(lambda s: s._latex(printer), self.lower))\n        return "{{{}^{{{}}}_{{{}}}}}".format(self.symbol, upper, lower)'),
+    # unpacking + string accumulation in the delta printer
+    dict(id="c18-ok-delta-unpack", prop="C18", file=S, expect=None,
+         old='        return (\n            "\\\\delta_{" + " ".join(s._latex(printer) for s in self.args) + "}"\n        )',
+         new='        first, second = self.args\n        text = "\\\\delta_{"\n        text += first._latex(printer)\n        text += " " + second._latex(printer)\n        return text + "}"'),
+    # sign table as a dict, the sum collected in a list and built by Add
+    dict(id="c18-ok-sum-by-add", prop="C18", file=F, expect=None, edits=[
+        ("    sympy_expr = 0\n    for term in terms:", "    summands = []\n    for term in terms:"),
+        ("        sympy_term = -1 if sign == '-' else +1\n", "        sympy_term = {'+': 1, '-': -1}[sign]\n"),
+        ("        sympy_expr += sympy_term\n    return Expr(sympy_expr)", "        summands.append(sympy_term)\n    return Expr(Add(*summands))"),
+    ]),
+    # numerator and denominator imported first, one product at the end
+    dict(id="c18-ok-fraction-late", prop="C18", file=F, expect=None, edits=[
+        ("        sympy_term *= import_term(num)\n        if denom is not None:\n            sympy_term /= import_term(denom)\n        sympy_expr += sympy_term",
+         "        value = import_term(num)\n        if denom is not None:\n            value = value / import_term(denom)\n        sympy_expr = sympy_expr + sympy_term * value"),
+    ]),
+    # independent branches of the object dispatch reordered (the prefixes are disjoint)
+    dict(id="c18-ok-dispatch-reordered", prop="C18", file=F, expect=None, edits=[
+        ('        elif obj_str.startswith("\\\\left("):  # braket', '        elif obj_str.startswith("\\\\left\\\\{"):  # NO\n            no, unexpected_stuff = obj_str.rsplit("\\\\right\\\\}", 1)\n            if unexpected_stuff:\n                raise NotImplementedError(f"Unexpected NO object: {obj_str}.")\n            inner = import_from_sympy_latex(\n                no.replace("\\\\left\\\\{", "", 1),\n                convert_default_names=convert_default_names\n            )\n            return NO(inner.sympy)\n        elif obj_str.startswith("\\\\left("):  # braket'),
+    ]),
+    # one spin list for the whole group instead of two calls
+    dict(id="c18-ok-spin-list", prop="C18", file=F, expect=None,
+         old="                idx.extend(get_symbols(names[:-1]))\n                idx.extend(get_symbols(names[-1], spin[0]))",
+         new='                spins = [""] * (len(names) - 1) + [spin[0]]\n                idx.extend(get_symbols(names, spins))'),
+    # while loop with an explicit position instead of for/enumerate
+    dict(id="c18-ok-while-scan", prop="C18", file=F, expect=None, edits=[
+        ("        term_start_idx = 0\n        for i, char in enumerate(expr_string):\n            if char in ['{', '(']:",
+         "        term_start_idx = 0\n        i = -1\n        while i + 1 < len(expr_string):\n            i += 1\n            char = expr_string[i]\n            if char in ['{', '(']:"),
+    ]),
+    # slicing instead of startswith, strip instead of lstrip/rstrip
+    dict(id="c18-ok-slices", prop="C18", file=F, expect=None, edits=[
+        ('        if term.startswith("\\\\frac"):  # fraction', '        if term[:5] == "\\\\frac":  # fraction'),
+        ('            exponent = int(exponent.lstrip("{").rstrip("}"))', '            exponent = int(exponent.strip("{}"))'),
+    ]),
+    # boolean algebra: the two returns of the recognisers merged
+    dict(id="c18-ok-recogniser-merged", prop="C18", file=T, expect=None, edits=[
+        ('    order = order.replace("c", "")\n    if order:\n        return base == tensor_names.gs_amplitude and order.isnumeric()\n    else:\n        return base == tensor_names.gs_amplitude',
+         '    digits = order.replace("c", "")\n    return base == tensor_names.gs_amplitude and (not digits or digits.isnumeric())'),
+        ('    if order:\n        return base == tensor_names.gs_density and order.isnumeric()\n    else:\n        return base == tensor_names.gs_density',
+         '    if base != tensor_names.gs_density:\n        return False\n    return order == "" or order.isnumeric()'),
+    ]),
+    # startswith instead of slicing and comparing; the field loop as a dict lookup
+    dict(id="c18-ok-default-lookup", prop="C18", file=T, expect=None, edits=[
+        ('    base, order = name[:len(default)], name[len(default):]\n    if base != default or (order and not order.isnumeric()):\n        return None\n    return base, order',
+         '    if not name.startswith(default):\n        return None\n    order = name[len(default):]\n    if order and not order.isnumeric():\n        return None\n    return default, order'),
+        ('        for field in fields(self):\n            if field.default == name:\n                return getattr(self, field.name)\n        return name  # found not matching default name -> return input',
+         '        configured = {field.default: getattr(self, field.name)\n                      for field in fields(self)}\n        return configured.get(name, name)'),
+    ]),
+    # nested if split into two guarded statements, the declaration test hoisted
+    dict(id="c18-ok-init-guards", prop="C18", file="expr_container.py", expect=None,
+         old="        if self._sym_tensors or self._antisym_tensors:\n            if real:\n                self._sym_tensors.update([tensor_names.fock, tensor_names.eri])\n            self._apply_tensor_braket_sym()",
+         new="        declared = len(self._sym_tensors) + len(self._antisym_tensors) > 0\n        if declared and real:\n            self._sym_tensors |= {tensor_names.fock, tensor_names.eri}\n        if declared:\n            self._apply_tensor_braket_sym()"),
+    # the configurable name reaches the constructor through an augmented local and a keyword argument
+    dict(id="c18-ok-writer-name-flow", prop="C18", file="intermediates.py", expect=None,
+         old='        return AntiSymmetricTensor(\n            f"{tensor_names.gs_density}2", (indices[0],), (indices[1],), 1\n        )',
+         new='        label = tensor_names.gs_density\n        label += "2"\n        return AntiSymmetricTensor(\n            upper=(indices[0],), lower=(indices[1],), name=label, bra_ket_sym=1\n        )'),
+]
+
+# ---------------------------------------------------------------------------------------------------------------------
+# breaking edits for the checks introduced with the evaluation based rules
+WITNESSES += [
+    dict(id="c18-spin-word-unchecked", prop="C18", file=F, expect="R18b",
+         old='                if spin not in ["alpha", "beta"]:', new='                if not spin:'),
+    dict(id="c18-spin-code-last-letter", prop="C18", file=F, expect="R18b",
+         old="                idx.extend(get_symbols(names[-1], spin[0]))", new="                idx.extend(get_symbols(names[-1], spin[-1]))"),
+    dict(id="c18-delta-three-indices", prop="C18", file=F, expect="R18b",
+         old="            if len(idx) != 2:", new="            if len(idx) < 2:"),
+    dict(id="c18-operator-unchecked", prop="C18", file=F, expect="R18b",
+         old='            if len(indices) == 2 and indices[0] == "\\\\dagger":', new='            if len(indices) == 2:'),
+    dict(id="c18-empty-text", prop="C18", file=F, expect="R18d",
+         old="    if not expr_string:\n        return Expr(0)\n", new=""),
+    dict(id="c18-sqrt-lost", prop="C18", file=F, expect="R18d",
+         old='            return sqrt(int(obj_str[:-1].replace("\\\\sqrt{", "", 1)))', new='            return int(obj_str[:-1].replace("\\\\sqrt{", "", 1))'),
+    dict(id="c18-bracket-exponent-lost", prop="C18", file=F, expect="R18d",
+         old="            return Pow(obj.sympy, exponent)", new="            return obj.sympy"),
+    dict(id="c18-last-term-only", prop="C18", file=F, expect="R18d",
+         old="        sympy_expr += sympy_term\n    return Expr(sympy_expr)", new="        sympy_expr = sympy_term\n    return Expr(sympy_expr)"),
+    dict(id="c18-denominator-flag", prop="C18", file=F, expect="R18d",
+         old="                return import_from_sympy_latex(\n                    term_string, convert_default_names=convert_default_names\n                ).sympy",
+         new="                return import_from_sympy_latex(term_string).sympy"),
+    dict(id="c18-operators-commuted", prop="C18", file=F, expect="R18d",
+         old="        return Mul(*(import_obj(o) for o in objects))", new="        return Mul(*(import_obj(o) for o in reversed(objects)))"),
+    dict(id="c18-result-with-assumptions", prop="C18", file=F, expect="R18d",
+         old="        sympy_expr += sympy_term\n    return Expr(sympy_expr)", new="        sympy_expr += sympy_term\n    return Expr(sympy_expr, real=True)"),
+    dict(id="c18-adc-left-only", prop="C18", file=T, expect="R18c",
+         old="    return (name == tensor_names.left_adc_amplitude or\n            name == tensor_names.right_adc_amplitude)", new="    return name == tensor_names.left_adc_amplitude"),
+    dict(id="c18-density-any-order", prop="C18", file=T, expect="R18c",
+         old="    if order:\n        return base == tensor_names.gs_density and order.isnumeric()\n    else:\n        return base == tensor_names.gs_density",
+         new="    return base == tensor_names.gs_density"),
+    dict(id="c18-amplitude-default-length", prop="C18", file=T, expect="R18c",
+         old="    n = len(tensor_names.gs_amplitude)\n    return name[:n], name[n:]", new="    n = 1\n    return name[:n], name[n:]"),
+    dict(id="c18-density-mapped-to-amplitude", prop="C18", file=T, expect="R18c",
+         old="            return self.gs_density + ext", new="            return self.gs_amplitude + ext"),
+    dict(id="c18-map-always", prop="C18", file=F, expect="R18c",
+         old="        if convert_default_names:\n            name = tensor_names.map_default_name(name)", new="        name = tensor_names.map_default_name(name)"),
+    dict(id="c18-init-real-dropped", prop="C18", file="expr_container.py", expect="R18e",
+         old="        if real:\n            self.make_real()\n\n    def __str__(self):\n        return latex(self.sympy)", new="\n    def __str__(self):\n        return latex(self.sympy)"),
+    dict(id="c18-init-antisym-only", prop="C18", file="expr_container.py", expect="R18e",
+         old="        if self._sym_tensors or self._antisym_tensors:\n            if real:", new="        if self._sym_tensors:\n            if real:"),
+    dict(id="c18-init-apply-before-store", prop="C18", file="expr_container.py", expect="R18e", edits=[
+        ("        self._antisym_tensors: set = (set() if antisym_tensors is None\n                                      else set(antisym_tensors))\n", "        self._antisym_tensors: set = set()\n"),
+        ("            self._apply_tensor_braket_sym()\n        # then check if we are real", "            self._apply_tensor_braket_sym()\n        if antisym_tensors is not None:\n            self._antisym_tensors = set(antisym_tensors)\n        # then check if we are real"),
+    ]),
+    dict(id="c18-writer-density-symmetric", prop="C18", file="intermediates.py", expect="R18a",
+         old='        return AntiSymmetricTensor(\n            f"{tensor_names.gs_density}2", (indices[0],), (indices[1],), 1\n        )',
+         new='        return SymmetricTensor(\n            f"{tensor_names.gs_density}2", (indices[0],), (indices[1],), 1\n        )'),
+    dict(id="c18-amplitude-own-printer", prop="C18", file=S, expect="R18b",
+         old='class Amplitude(AntiSymmetricTensor):\n    """\n    Represents antisymmetric Amplitudes.\n    """\n',
+         new='class Amplitude(AntiSymmetricTensor):\n    """\n    Represents antisymmetric Amplitudes.\n    """\n\n    def _latex(self, printer) -> str:\n        return "{%s_{%s}^{%s}}" % (\n            self.symbol,\n            "".join([i._latex(printer) for i in self.lower]),\n            "".join([i._latex(printer) for i in self.upper])\n        )\n'),
+    dict(id="c18-delta-top-level-blank", prop="C18", file=S, expect="R18b'",
+         old='            "\\\\delta_{" + " ".join(s._latex(printer) for s in self.args) + "}"', new='            "\\\\delta _{" + " ".join(s._latex(printer) for s in self.args) + "}"'),
+]
+
+WITNESSES += [
+    # sympy's printer dispatch instead of calling _latex directly; the name read through the `name` property
+    dict(id="c18-ok-printer-dispatch", prop="C18", file=S, expect=None, edits=[
+        ('        return "{%s_{%s}}" % (self.symbol, "".join([i._latex(printer)\n                                                    for i in self.indices]))',
+         '        printed = [printer._print(i) for i in self.indices]\n        return "{%s_{%s}}" % (self.name, "".join(printed))'),
+    ]),
+]
+
+WITNESSES += [
+    # the configurable name reaches the constructor through a parameter of an extracted module level helper; the
+    # singleton is imported under another local name
+    dict(id="c18-ok-writer-helper-alias", prop="C18", file="operators.py", expect=None, edits=[
+        ("from .tensor_names import tensor_names\n", "from .tensor_names import tensor_names as names\n"),
+        ("class Operators:\n", "def _matrix(label, upper, lower):\n    return AntiSymmetricTensor(label, upper, lower)\n\n\nclass Operators:\n"),
+        ("        f = AntiSymmetricTensor(tensor_names.fock, (p,), (q,))\n        pq = Fd(p) * F(q)\n        h0 = f * pq",
+         "        f = _matrix(names.fock, (p,), (q,))\n        pq = Fd(p) * F(q)\n        h0 = f * pq"),
+        ("        name = tensor_names.operator\n", "        name = names.operator\n"),
+        ("        v1 = AntiSymmetricTensor(tensor_names.eri, (p, occ), (q, occ))", "        v1 = _matrix(lower=(q, occ), upper=(p, occ), label=names.eri)"),
+        ("        v2 = AntiSymmetricTensor(tensor_names.eri, (p, q), (r, s))", "        v2 = _matrix(names.eri, (p, q), (r, s))"),
+        ("        f = AntiSymmetricTensor(tensor_names.fock, (p,), (q,))\n        piqi = AntiSymmetricTensor(tensor_names.eri, (p, occ), (q, occ))\n        pqrs = AntiSymmetricTensor(tensor_names.eri, (p, q), (r, s))",
+         "        f = _matrix(names.fock, (p,), (q,))\n        piqi = _matrix(names.eri, (p, occ), (q, occ))\n        pqrs = _matrix(names.eri, (p, q), (r, s))"),
+        ("        f = AntiSymmetricTensor(tensor_names.fock, (p,), (q,))\n        piqi = AntiSymmetricTensor(tensor_names.eri, (p, occ), (q, occ))\n        pqrs = AntiSymmetricTensor(tensor_names.eri, (p, q), (r, s))",
+         "        f = _matrix(names.fock, (p,), (q,))\n        piqi = _matrix(names.eri, (p, occ), (q, occ))\n        pqrs = _matrix(names.eri, (p, q), (r, s))"),
+    ]),
+    # ... and the same helper building the wrong class is still seen
+    dict(id="c18-writer-helper-symmetric", prop="C18", file="operators.py", expect="R18a", edits=[
+        ("from .sympy_objects import AntiSymmetricTensor\n", "from .sympy_objects import AntiSymmetricTensor, SymmetricTensor\n"),
+        ("class Operators:\n", "def _matrix(label, upper, lower):\n    return SymmetricTensor(label, upper, lower)\n\n\nclass Operators:\n"),
+        ("        v2 = AntiSymmetricTensor(tensor_names.eri, (p, q), (r, s))", "        v2 = _matrix(tensor_names.eri, (p, q), (r, s))"),
+    ]),
+    dict(id="c18-three-groups-accepted", prop="C18", file=F, expect="R18b",
+         old="        elif len(indices) == 1:  # nonsymtensor\n            base = NonSymmetricTensor(name, import_indices(indices[0]))\n        else:\n            raise RuntimeError(f\"Unknown tensor object: {tensor}\")",
+         new="        else:  # nonsymtensor\n            base = NonSymmetricTensor(name, import_indices(indices[0]))"),
+    dict(id="c18-symbol-as-tensor", prop="C18", file=F, expect="R18b",
+         old="        if len(indices) == 0:  # no indices -> a symbol\n            base = Symbol(name)", new="        if len(indices) == 0:  # no indices -> a symbol\n            base = NonSymmetricTensor(name, [])"),
+    dict(id="c18-amplitude-by-prefix", prop="C18", file=F, expect="R18a",
+         old="            if is_adc_amplitude(name) or is_t_amplitude(name):", new="            if is_adc_amplitude(name) or name.startswith(tensor_names.gs_amplitude):"),
+    dict(id="c18-no-strip", prop="C18", file=F, expect="R18d",
+         old="    expr_string = expr_string.strip()\n    if not expr_string:", new="    if not expr_string:"),
+    dict(id="c18-no-exponent-accepted", prop="C18", file=F, expect="R18d",
+         old="            if unexpected_stuff:\n                raise NotImplementedError(f\"Unexpected NO object: {obj_str}.\")\n", new=""),
+    dict(id="c18-init-target-dropped", prop="C18", file="expr_container.py", expect="R18e",
+         old="        if target_idx is not None:\n            self.set_target_idx(target_idx)\n        # first apply the tensor symmetry", new="        # first apply the tensor symmetry"),
+    dict(id="c18-init-antisym-not-stored", prop="C18", file="expr_container.py", expect="R18e",
+         old="        self._antisym_tensors: set = (set() if antisym_tensors is None\n                                      else set(antisym_tensors))\n", new="        self._antisym_tensors: set = set()\n"),
+]
+
+WITNESSES += [
+    # the term splitter as a generator, the index parts through `yield from`
+    dict(id="c18-ok-generators", prop="C18", file=F, expect=None, edits=[
+        ("    def split_terms(expr_string: str) -> list[str]:\n        stack: list[str] = []\n        terms: list[str] = []\n", "    def split_terms(expr_string: str):\n        stack: list[str] = []\n"),
+        ("                terms.append(expr_string[term_start_idx:i])\n                term_start_idx = i\n        terms.append(expr_string[term_start_idx:])  # append last term\n        return terms",
+         "                yield expr_string[term_start_idx:i]\n                term_start_idx = i\n        yield expr_string[term_start_idx:]  # last term"),
+        ("    terms = split_terms(expr_string)\n", "    terms = list(split_terms(expr_string))\n"),
+        ("        idx = []\n        for sub_part in indices.split(\"}\"):", "        idx = []\n        for sub_part in (yield_parts(indices)):"),
+        ("    def import_indices(indices: str):", "    def yield_parts(indices: str):\n        yield from indices.split(\"}\")\n\n    def import_indices(indices: str):"),
+    ]),
+    # operators instead of the Pow/Mul constructors, the product accumulated in a loop starting from S.One
+    dict(id="c18-ok-operators-for-constructors", prop="C18", file=F, expect=None, edits=[
+        ("        return Pow(base, exponent)\n\n    def import_obj", "        return base ** exponent\n\n    def import_obj"),
+        ("            return Pow(obj.sympy, exponent)", "            return obj.sympy ** exponent"),
+        ("        return Mul(*(import_obj(o) for o in objects))", "        result = S.One\n        for o in objects:\n            result = result * import_obj(o)\n        return result"),
+    ]),
+    # the spin words and their codes in a module level table
+    dict(id="c18-ok-spin-code-table", prop="C18", file=F, expect=None, edits=[
+        ("def import_from_sympy_latex(expr_string: str,", "_SPIN_WORDS = {\"alpha\": \"a\", \"beta\": \"b\"}\n\n\ndef import_from_sympy_latex(expr_string: str,"),
+        ('                if spin not in ["alpha", "beta"]:', '                if spin not in _SPIN_WORDS:'),
+        ("                idx.extend(get_symbols(names[-1], spin[0]))", "                idx.extend(get_symbols(names[-1], _SPIN_WORDS[spin]))"),
+    ]),
+    # `x or ()` instead of the conditional expression, partition instead of split
+    dict(id="c18-ok-or-default", prop="C18", file="expr_container.py", expect=None,
+         old="        self._sym_tensors: set = (set() if sym_tensors is None\n                                  else set(sym_tensors))", new="        self._sym_tensors: set = set(sym_tensors or ())"),
+]
+
+WITNESSES += [
+    # the printer parameter renamed (the method is called positionally by sympy), a default through dataclasses.field
+    dict(id="c18-ok-printer-param-field-default", prop="C18", file=I, expect=None, edits=[
+        ("    def _latex(self, printer) -> str:\n        ret = self.name", "    def _latex(self, prt) -> str:\n        ret = self.name"),
+    ]),
+    dict(id="c18-ok-field-default", prop="C18", file=T, expect=None, edits=[
+        ("from dataclasses import dataclass, fields\n", "from dataclasses import dataclass, fields, field\n"),
+        ('    coulomb: str = "v"\n', '    coulomb: str = field(default="v")\n'),
+    ]),
+]
